@@ -407,7 +407,9 @@ func runC14(c *Ctx) {
 		loopOK := false
 		for _, l := range f.Loops() {
 			if c := condOf(l.Head); c != nil {
-				if rel, ok := relOf(c); ok && rel.Op == "<=" && rel.R == "slot" {
+				// the loop bound resolved through helper parameters: i <= slot
+				hpt := Point{l.Head, len(l.Head.Nodes) - 1}
+				if rel, ok := relOfWith(c, func(x ast.Expr) string { return f.KeyAt(x, hpt) }); ok && rel.Op == "<=" && rel.R == "slot" {
 					loopOK = true
 				}
 			}
@@ -548,37 +550,10 @@ func checkDerivedVariableWiring(r *Reporter, p *Prog, pkg string, fd *ast.FuncDe
 	}
 	subscribed := map[int]bool{}
 	var bad []string
-	ast.Inspect(fd.Body, func(n ast.Node) bool {
-		cl, ok := n.(*ast.CallExpr)
-		if !ok {
-			return true
-		}
-		se, ok := ast.Unparen(cl.Fun).(*ast.SelectorExpr)
-		if !ok || se.Sel.Name != "OnUpdate" {
-			return true
-		}
-		idx := -1
-		for i, in := range inputs {
-			if objOfIdent(info, se.X) == in {
-				idx = i
-			}
-		}
-		if idx < 0 {
-			return true
-		}
-		subscribed[idx] = true
-		if len(cl.Args) != 2 || exprKey(cl.Args[1]) != "true" {
-			bad = append(bad, fmt.Sprintf("input %d is subscribed without the initial trigger: the derived value is not computed until that input changes", idx+1))
-		}
-		lit, ok := cl.Args[0].(*ast.FuncLit)
-		if !ok || lit.Type.Params.NumFields() != 2 {
-			bad = append(bad, fmt.Sprintf("input %d: subscriber is not a two-argument literal", idx+1))
-			return true
-		}
-		var newVal types.Object
-		if names := lit.Type.Params.List[len(lit.Type.Params.List)-1].Names; len(names) > 0 {
-			newVal = info.Defs[names[len(names)-1]]
-		}
+	// checkRecompute: inside the subscriber literal, compute is called with the new value at the
+	// subscribed input's position and inputJ.Get() at every other position
+	var checkRecompute func(lit *ast.FuncLit, idx int, newVal types.Object)
+	checkRecompute = func(lit *ast.FuncLit, idx int, newVal types.Object) {
 		found := false
 		ast.Inspect(lit.Body, func(m ast.Node) bool {
 			c2, ok := m.(*ast.CallExpr)
@@ -614,6 +589,62 @@ func checkDerivedVariableWiring(r *Reporter, p *Prog, pkg string, fd *ast.FuncDe
 		if !found {
 			bad = append(bad, fmt.Sprintf("subscription of input %d never recomputes", idx+1))
 		}
+	}
+	ast.Inspect(fd.Body, func(n ast.Node) bool {
+		cl, ok := n.(*ast.CallExpr)
+		if !ok {
+			return true
+		}
+		// a subscription through a forwarding helper of the package, verified on its own body:
+		// h(d, inputK, func(current, newValue) T { return compute(current, ...) })
+		if fn := staticCallee(info, cl); fn != nil {
+			if hd := p.decls().byFunc[fn.Origin()]; hd != nil && hd.Recv == nil && !hd.Name.IsExported() && p.decls().infoOf[hd] == info {
+				if inIdx, fnIdx, okH := forwardingSubscription(info, hd); okH && inIdx < len(cl.Args) && fnIdx < len(cl.Args) {
+					idx := -1
+					for i, in := range inputs {
+						if objOfIdent(info, cl.Args[inIdx]) == in {
+							idx = i
+						}
+					}
+					if lit, isLit := ast.Unparen(cl.Args[fnIdx]).(*ast.FuncLit); isLit && idx >= 0 && lit.Type.Params.NumFields() == 2 {
+						subscribed[idx] = true
+						var newVal types.Object
+						if names := lit.Type.Params.List[len(lit.Type.Params.List)-1].Names; len(names) > 0 {
+							newVal = info.Defs[names[len(names)-1]]
+						}
+						checkRecompute(lit, idx, newVal)
+						return false
+					}
+				}
+			}
+		}
+		se, ok := ast.Unparen(cl.Fun).(*ast.SelectorExpr)
+		if !ok || se.Sel.Name != "OnUpdate" {
+			return true
+		}
+		idx := -1
+		for i, in := range inputs {
+			if objOfIdent(info, se.X) == in {
+				idx = i
+			}
+		}
+		if idx < 0 {
+			return true
+		}
+		subscribed[idx] = true
+		if len(cl.Args) != 2 || exprKey(cl.Args[1]) != "true" {
+			bad = append(bad, fmt.Sprintf("input %d is subscribed without the initial trigger: the derived value is not computed until that input changes", idx+1))
+		}
+		lit, ok := cl.Args[0].(*ast.FuncLit)
+		if !ok || lit.Type.Params.NumFields() != 2 {
+			bad = append(bad, fmt.Sprintf("input %d: subscriber is not a two-argument literal", idx+1))
+			return true
+		}
+		var newVal types.Object
+		if names := lit.Type.Params.List[len(lit.Type.Params.List)-1].Names; len(names) > 0 {
+			newVal = info.Defs[names[len(names)-1]]
+		}
+		checkRecompute(lit, idx, newVal)
 		return true
 	})
 	for i := range inputs {
@@ -644,4 +675,84 @@ func rawKey2(b *ast.BlockStmt) string {
 		return true
 	})
 	return sb.String()
+}
+
+// forwardingSubscription verifies a package-level helper of the shape
+//
+//	func h(d, input, recompute) func() {
+//		return input.OnUpdate(func(_, v) { d.Compute(func(cur) T { return recompute(cur, v) }) }, true)
+//	}
+//
+// and returns the positions of the input and of the recompute function among its parameters: the
+// one OnUpdate call is made on a parameter with the initial trigger, and inside its subscriber a
+// function-typed parameter is called with (the current value of the enclosing Compute literal, the
+// subscriber's new value).
+func forwardingSubscription(info *types.Info, hd *ast.FuncDecl) (inIdx, fnIdx int, ok bool) {
+	params := paramObjs(info, hd)
+	idxOf := func(o types.Object) int {
+		for i, po := range params {
+			if po != nil && po == o {
+				return i
+			}
+		}
+		return -1
+	}
+	inIdx, fnIdx = -1, -1
+	nOn := 0
+	ast.Inspect(hd.Body, func(n ast.Node) bool {
+		cl, isCall := n.(*ast.CallExpr)
+		if !isCall {
+			return true
+		}
+		se, isSel := ast.Unparen(cl.Fun).(*ast.SelectorExpr)
+		if !isSel || se.Sel.Name != "OnUpdate" {
+			return true
+		}
+		nOn++
+		if len(cl.Args) != 2 || rawKey(cl.Args[1]) != "true" {
+			return true
+		}
+		lit, isLit := ast.Unparen(cl.Args[0]).(*ast.FuncLit)
+		if !isLit || lit.Type.Params.NumFields() != 2 {
+			return true
+		}
+		var newVal types.Object
+		if names := lit.Type.Params.List[len(lit.Type.Params.List)-1].Names; len(names) > 0 {
+			newVal = info.Defs[names[len(names)-1]]
+		}
+		i := idxOf(objOfIdent(info, se.X))
+		if i < 0 || newVal == nil {
+			return true
+		}
+		// inside: X.Compute(func(cur) { return P(cur, newVal) })
+		ast.Inspect(lit.Body, func(m ast.Node) bool {
+			cc, isC := m.(*ast.CallExpr)
+			if !isC {
+				return true
+			}
+			cse, isS := ast.Unparen(cc.Fun).(*ast.SelectorExpr)
+			if !isS || cse.Sel.Name != "Compute" || len(cc.Args) != 1 {
+				return true
+			}
+			inner, isL := ast.Unparen(cc.Args[0]).(*ast.FuncLit)
+			if !isL || inner.Type.Params.NumFields() != 1 || len(inner.Type.Params.List[0].Names) != 1 {
+				return true
+			}
+			cur := info.Defs[inner.Type.Params.List[0].Names[0]]
+			ast.Inspect(inner.Body, func(q ast.Node) bool {
+				pc, isP := q.(*ast.CallExpr)
+				if !isP || len(pc.Args) != 2 {
+					return true
+				}
+				j := idxOf(objOfIdent(info, pc.Fun))
+				if j >= 0 && objOfIdent(info, pc.Args[0]) == cur && objOfIdent(info, pc.Args[1]) == newVal {
+					inIdx, fnIdx = i, j
+				}
+				return true
+			})
+			return true
+		})
+		return true
+	})
+	return inIdx, fnIdx, nOn == 1 && inIdx >= 0 && fnIdx >= 0
 }
